@@ -488,11 +488,24 @@ impl Interp {
         }
         let literal = drv.literal_ids();
         let mut run = Run { drv, to_spec: HashMap::new(), to_real: HashMap::new(), literal };
+        let m0 = rep.mismatches;
+        self.replay_steps(idx, beh, steps, &mut run, reordered0, rep);
+        // the tracker's destructor (it stops and joins the worker threads) belongs to the code under test as well
+        if std::panic::catch_unwind(std::panic::AssertUnwindSafe(move || drop(run))).is_err() && rep.mismatches == m0 {
+            if self.focus == "all" || props_of("panic").contains(&self.focus.as_str()) {
+                rep.mismatch(&format!("{}:panic", self.cfg.kind), idx, beh, json!({"where": "drop"}));
+            } else {
+                rep.count("abandoned_outside_focus", 1);
+            }
+        }
+    }
+
+    fn replay_steps(&self, idx: usize, beh: &Value, steps: &[Value], run: &mut Run, reordered0: u64, rep: &mut Report) {
         let empty = json!({"tracks": [], "epochs": [], "issued": 0});
         let mut before = empty.clone();
         for (k, s) in steps.iter().enumerate() {
             rep.steps += 1;
-            let r = std::panic::catch_unwind(std::panic::AssertUnwindSafe(|| self.step(&mut run, s, &before)));
+            let r = std::panic::catch_unwind(std::panic::AssertUnwindSafe(|| self.step(run, s, &before)));
             let m = match r {
                 Ok(m) => m,
                 Err(_) => Some(("panic".to_string(), json!({}))),
